@@ -61,3 +61,32 @@ contract("lex:Lexer.ignore_whitespace", mutates=M, requires=INV, unfold=["py_eq"
     raises_iff=[("JSONPathLexerError", "self.pos != self.start")],
     raises_ensures=["tok_ok(exc.token, self0.query)", "exc.token.index == self0.pos"],
     props=["C19", "C13"])
+
+# ---- state functions: each preserves the invariant and only lets lexer errors with an in-range token escape ----------
+L = {"l": "Lexer"}
+S_REQ = ["lex_inv(l)", "lex_stacks_ok(l)"]
+S_ENS = ["lex_inv(l)", "l.query == l0.query", "lex_stacks_ok(l)"]
+S_EXC = ["tok_ok(exc.token, l0.query)"]
+
+contract("lex:lex_root", mutates=L, requires=S_REQ, ensures=S_ENS, raises=["JSONPathSyntaxError", "JSONPathLexerError"], raises_ensures=S_EXC, props=["C19", "C13"])
+
+S_INV = ["lex_inv(l)", "l.query == entry_l.query", "lex_stacks_ok(l)"]
+for _fn in ("lex_segment", "lex_descendant_segment", "lex_shorthand_selector", "lex_inside_bracketed_segment", "lex_inside_filter"):
+    contract("lex:" + _fn, mutates=L, requires=S_REQ, ensures=S_ENS, raises=["JSONPathSyntaxError", "JSONPathLexerError"],
+             raises_ensures=S_EXC, unfold=["py_eq"], loops={1: S_INV}, props=["C19", "C13"])
+
+contract("lex:lex_string_factory", trusted=True, requires=[], ensures=[], raises=[], props=["C19"],
+    note="builds the closure _lex_string over (quote, state, tt); the closure itself is verified as lex:lex_string_factory.<locals>._lex_string "
+         "for every string quote and every token type tt")
+
+contract("lex:lex_string_factory.<locals>._lex_string", mutates=L,
+    requires=S_REQ + ["is_str(quote)", "isinstance(tt, TokenType)"], ensures=S_ENS,
+    raises=["JSONPathSyntaxError", "JSONPathLexerError"], raises_ensures=S_EXC, unfold=["py_eq"], loops={1: S_INV}, props=["C19", "C13"])
+
+contract("lex:Lexer.run", mutates=M, requires=["lex_inv(self)", "lex_stacks_ok(self)"],
+    ensures=["lex_inv(self)", "self.query == self0.query", "lex_stacks_ok(self)"],
+    raises=["JSONPathSyntaxError", "JSONPathLexerError"], raises_ensures=["tok_ok(exc.token, self0.query)"],
+    loops={1: ["lex_inv(self)", "self.query == entry_self.query", "lex_stacks_ok(self)"]},
+    fn_vars={"state": "lex:lex_root"}, props=["C19", "C13"],
+    note="the driver loop: `state` always holds one of the state functions, which all carry the contract of lex_root "
+         "(pyvc/lexframe.py checks both facts on the AST / the contract registry)")
